@@ -1,6 +1,7 @@
 package hclwrite
 
 import (
+    "strings"
     "fmt"
     "unicode"
     "unicode/utf8"
@@ -234,6 +235,13 @@ func escapeQuotedStringLit(s string) []byte {
                 buf = appendRune(buf, r)
             }
         default:
+            if r == utf8.RuneError && !strings.HasPrefix(s[i:], string(utf8.RuneError)) {
+                // a byte that is not UTF-8: kept as it is, with the escape this dialect
+                // has for single bytes
+                buf = append(buf, fmt.Sprintf("\\x%02x", s[i])...)
+                afterHex = true
+                continue
+            }
             if !unicode.IsPrint(r) || (wasHex && isHexDigit(r)) {
                 // this dialect's string literals have no \u and \U escapes (its
                 // scanner takes \x instead): the rune's UTF-8 bytes are written
